@@ -648,6 +648,107 @@ func (g *gen) ctorCase() {
 	g.runCtor(args, r.Intn(2) == 0, "constructor")
 }
 
+// ---------- toLocaleString under script-defined X.prototype.toLocaleString (15.4.4.3 steps 8.b / 10.d) ----------
+
+// cfg[i] for strings, numbers, booleans: 0 built-in, 1 a logging wrapper function, 2 not callable.
+// viaObject installs the wrapper on Object.prototype instead of String/Boolean.prototype (numbers keep their own).
+func (g *gen) runLoc(rc Recv, cfg [3]int, viaObject bool, bucket string) {
+	names := []string{"String", "Number", "Boolean"}
+	var pre strings.Builder
+	pre.WriteString("var WRAP=function(){var t=typeof this.valueOf();LOG+=\"6,i\"+(t===\"string\"?0:t===\"number\"?1:2)+\",\"+(typeof this===\"object\"?\"t\":\"f\")+\";\";return \"<\"+String(this)+\">\"};")
+	if viaObject {
+		pre.WriteString("Object.prototype.toLocaleString=WRAP;")
+		cfg = [3]int{1, 0, 1}
+	} else {
+		for i, c := range cfg {
+			switch c {
+			case 1:
+				fmt.Fprintf(&pre, "%s.prototype.toLocaleString=WRAP;", names[i])
+			case 2:
+				fmt.Fprintf(&pre, "%s.prototype.toLocaleString=%s;", names[i], Pick(g.r, []string{"undefined", "5", "null", "\"f\""}))
+			}
+		}
+	}
+	src := prelude + pre.String() + rc.JS() + "var out; LOG=\"\"; try{ out=\"ok \"+enc(AP.toLocaleString.call(R)) }catch(e){ out=\"ex \"+(e instanceof RangeError?3:e instanceof TypeError?6:8) } out+\"#\"+LOG"
+	o := runScript(src)
+	text := "locale " + pre.String()[strings.Index(pre.String(), "};")+2:] + rc.JS() + " AP.toLocaleString.call(R) -> "
+	obs := "(Thrown 9, [])"
+	if o.Panic != nil {
+		text += fmt.Sprintf("GO PANIC %v", o.Panic)
+	} else if o.Err != nil {
+		text += "ERROR " + o.Err.Error()
+	} else {
+		out := o.Val.String()
+		text += out
+		parts := strings.SplitN(out, "#", 2)
+		if len(parts) == 2 {
+			oc := ""
+			if strings.HasPrefix(parts[0], "ex ") {
+				oc = "Thrown " + parts[0][3:]
+			} else if strings.HasPrefix(parts[0], "ok ") {
+				if t, ok := decVal(parts[0][3:]); ok {
+					oc = "Ret (RVal " + t + ")"
+				}
+			}
+			var log []string
+			good := oc != ""
+			for _, e := range strings.Split(parts[1], ";") {
+				if e == "" {
+					continue
+				}
+				var vs []string
+				for i, t := range strings.Split(e, ",") {
+					if i == 0 {
+						vs = append(vs, "VNum "+t)
+					} else if c, ok := decVal(t); ok {
+						vs = append(vs, c)
+					} else {
+						good = false
+					}
+				}
+				log = append(log, Clist(vs))
+			}
+			if good {
+				obs = fmt.Sprintf("(%s, %s)", oc, Clist(log))
+			}
+		}
+	}
+	g.env.Add(fmt.Sprintf("CLoc %d %d %d %s %s", cfg[0], cfg[1], cfg[2], rc.Coq(), obs), text, bucket, true)
+}
+
+func (g *gen) locVal() *V {
+	r := g.r
+	switch r.Intn(10) {
+	case 0:
+		return nil
+	case 1:
+		return vp(Pick(r, []V{vUndef, vNull}))
+	case 2, 3:
+		return vp(vNum(float64(r.Intn(1999) - 999)))
+	case 4:
+		return vp(vBool(r.Intn(2) == 0))
+	default:
+		return vp(vStr(Pick(r, []string{"a", "b", "", "xy", "1", "true"})))
+	}
+}
+
+func (g *gen) locCase() {
+	r := g.r
+	n := r.Intn(6)
+	el := make([]*V, n)
+	for i := range el {
+		el[i] = g.locVal()
+	}
+	rc := Recv{arr: r.Intn(3) > 0, elems: el}
+	if !rc.arr {
+		rc.length = vp(vNum(float64(n)))
+		if r.Intn(4) == 0 {
+			rc = Recv{prim: vp(vStr("abcd"[:r.Intn(5)]))}
+		}
+	}
+	g.runLoc(rc, [3]int{r.Intn(3), r.Intn(3), r.Intn(3)}, r.Intn(5) == 0, "locale-string")
+}
+
 // ---------- pinned witnesses (run first on every run): all eleven findings are repaired in /repo;
 // these are regression cases that expect the ES5 result ----------
 
@@ -657,6 +758,75 @@ func nums(xs ...float64) []*V {
 		a[i] = vp(vNum(x))
 	}
 	return a
+}
+
+// deterministic families that run on every seed
+func (g *gen) families() {
+	str := func(x string) *V { return vp(vStr(x)) }
+	// (1) toLocaleString: every configuration of the string entry x (built-in, wrapper, not callable) for numbers/booleans
+	mixed := []*V{str("a"), vp(vNum(1)), nil, str("b"), vp(vNull), vp(vBool(true)), vp(vUndef)}
+	for cs := 0; cs < 3; cs++ {
+		for cn := 0; cn < 3; cn++ {
+			g.runLoc(Recv{arr: true, elems: mixed}, [3]int{cs, cn, (cs + cn) % 3}, false, "family-locale")
+		}
+		g.runLoc(Recv{elems: []*V{str("x"), str("y")}, length: vp(vNum(2))}, [3]int{cs, 0, 0}, false, "family-locale")
+		g.runLoc(Recv{prim: str("pq")}, [3]int{cs, 0, 0}, false, "family-locale")
+		g.runLoc(Recv{arr: true, elems: []*V{vp(vBool(false)), vp(vNum(7))}}, [3]int{0, cs, 2 - cs}, false, "family-locale")
+	}
+	g.runLoc(Recv{arr: true, elems: mixed}, [3]int{}, true, "family-locale")
+	// (2) primitive receivers: every callback method (and the searching / joining ones) must work on ToObject(this)
+	//     and hand the callback that one wrapper object as third argument
+	for _, pv := range []V{vStr("ab"), vStr(""), vNum(5), vBool(true)} {
+		for m := 10; m <= 16; m++ {
+			cbs := []CbStep{{ret: vBool(m == 10)}, {ret: vBool(m == 10)}}
+			g.runHist(Recv{prim: vp(pv)}, []Op{{kind: 'c', m: m, args: []Arg{{kind: 'c'}}, cbs: cbs}}, "family-primitive")
+		}
+		g.runHist(Recv{prim: vp(pv)}, []Op{{kind: 'c', m: 0}, {kind: 'c', m: 8, args: []Arg{av(vStr("b"))}}, {kind: 'c', m: 9, args: []Arg{av(vStr("a"))}},
+			{kind: 'c', m: 5, args: []Arg{av(vNum(1))}}, {kind: 'c', m: 19}}, "family-primitive")
+	}
+	// (4) definitions and stores past the end of hardened arrays (15.4.5.1 step 4: the element first, then length)
+	for _, h := range []Op{{kind: 'e'}, {kind: 'l'}, {kind: 'f'}, {kind: 'p', k: kName("length"), d: Desc{w: bp(false)}}} {
+		for _, w := range []Op{
+			{kind: 'p', k: kIdx(3), d: Desc{v: vp(vNum(7)), w: bp(true), e: bp(true), c: bp(true)}},
+			{kind: 'p', k: kIdx(5), d: Desc{v: vp(vNum(7))}},
+			{kind: 's', k: kIdx(3), v: vNum(7)},
+			{kind: 'c', m: 2, args: []Arg{av(vNum(7))}},
+		} {
+			g.runHist(Recv{arr: true, elems: nums(1, 2, 3)}, []Op{h, w, {kind: 'c', m: 17}}, "family-past-the-end")
+		}
+	}
+	// (5) every optional argument: omitted / explicit undefined / null
+	for _, opt := range [][]Arg{nil, {av(vUndef)}, {av(vNull)}} {
+		for _, m := range []int{8, 9} {
+			g.runHist(Recv{arr: true, elems: nums(1, 2, 1)}, []Op{{kind: 'c', m: m, args: append([]Arg{av(vNum(1))}, opt...)}}, "family-optional-args")
+		}
+		g.runHist(Recv{arr: true, elems: nums(1, 2, 3)}, []Op{{kind: 'c', m: 5, args: append([]Arg{av(vNum(1))}, opt...)}, {kind: 'c', m: 5, args: opt},
+			{kind: 'c', m: 0, args: opt}, {kind: 'c', m: 6, args: append([]Arg{av(vNum(1))}, opt...)}}, "family-optional-args")
+		g.runHist(Recv{arr: true, elems: nums(1, 2, 3)}, []Op{{kind: 'c', m: 6, args: append(append([]Arg{}, opt...), av(vNum(1)))},
+			{kind: 'c', m: 15, args: append([]Arg{{kind: 'c'}}, opt...)}, {kind: 'c', m: 12, args: append([]Arg{{kind: 'c'}}, opt...)}}, "family-optional-args")
+	}
+	// (3) [[Put]] through an inherited index accessor: every writing route x every hardening of the receiver
+	acc := func(k int64) Prop { return Prop{acc: &Getter{id: 90 + int(k), p: int(k)}} }
+	hard := [][]Op{nil, {{kind: 'e'}}, {{kind: 'l'}}, {{kind: 'f'}}}
+	writes := []Op{
+		{kind: 'c', m: 2, args: []Arg{av(vNum(99))}}, {kind: 'c', m: 7, args: []Arg{av(vNum(5))}}, {kind: 'c', m: 7}, {kind: 'c', m: 3},
+		{kind: 'c', m: 6, args: []Arg{av(vNum(0)), av(vNum(0)), av(vNum(1))}}, {kind: 'c', m: 6, args: []Arg{av(vNum(0)), av(vNum(1))}}, {kind: 'c', m: 4}, {kind: 'c', m: 1},
+		{kind: 's', k: kIdx(1), v: vNum(8)}, {kind: 's', k: kIdx(3), v: vNum(8)},
+	}
+	for hi, h := range hard {
+		for wi, w := range writes {
+			for _, onAP := range []bool{true, false} {
+				if (hi+wi)%2 == 0 && !onAP {
+					continue
+				}
+				rc := Recv{arr: true, elems: []*V{vp(vNum(10)), nil, vp(vNum(12))}, proto: map[int64]Prop{1: acc(1), 3: acc(3)}, onAP: onAP}
+				ops := append(append([]Op{}, h...), w)
+				g.runHist(rc, ops, "family-inherited-setter")
+			}
+		}
+		rc := Recv{elems: []*V{vp(vStr("a")), nil}, length: vp(vNum(2)), proto: map[int64]Prop{1: acc(1), 2: acc(2)}}
+		g.runHist(rc, append(append([]Op{}, h...), Op{kind: 'c', m: 2, args: []Arg{av(vNum(1))}}, Op{kind: 'c', m: 3}), "family-inherited-setter")
+	}
 }
 
 func (g *gen) pinned() {
@@ -705,14 +875,60 @@ func (g *gen) pinned() {
 func runC08(env *Env) {
 	env.Import = "Otto.C08.Corr"
 	env.Rule = "receivers: arrays and array-likes of 0-8 slots (values, holes, all-holes), odd lengths for array-likes, inherited index properties on Object/Array.prototype; " +
-		"histories of 1-6 steps over assignments, deletes, defineProperty (elements and length), freeze/seal/preventExtensions and the 20 Array.prototype methods of the table (toString/toLocaleString included, with 0-2 superfluous arguments on every method) + sort; callbacks that append/grow/shrink/edit the receiver during the walk; mutators on sealed/frozen/non-extensible/non-writable/non-configurable receivers; array-likes whose length getter counts its reads; callbacks that overwrite/delete/redefine-as-getter the element being visited; receivers whose elements are counting getters (which value is used and how often each getter runs); explicit undefined / null / omission for every optional argument; getters that grow/shrink a later concat argument or the receiver during the call; read-only and accessor (logging setter) index properties on Array.prototype/Object.prototype while map/filter/slice/splice/concat/Array()/literals/apply build their result; " +
+		"histories of 1-6 steps over assignments, deletes, defineProperty (elements and length), freeze/seal/preventExtensions and the 20 Array.prototype methods of the table (toString/toLocaleString included, with 0-2 superfluous arguments on every method) + sort; callbacks that append/grow/shrink/edit the receiver during the walk; mutators on sealed/frozen/non-extensible/non-writable/non-configurable receivers; array-likes whose length getter counts its reads; callbacks that overwrite/delete/redefine-as-getter the element being visited; receivers whose elements are counting getters (which value is used and how often each getter runs); explicit undefined / null / omission for every optional argument; getters that grow/shrink a later concat argument or the receiver during the call; [[Put]] through inherited index accessors on hardened receivers; primitive receivers (ToObject(this)); toLocaleString under script-defined String/Number/Boolean/Object.prototype.toLocaleString; read-only and accessor (logging setter) index properties on Array.prototype/Object.prototype while map/filter/slice/splice/concat/Array()/literals/apply build their result; " +
 		"numeric arguments drawn around 0, +-length, +-1/2, NaN, +-Infinity, +-2^31..2^64, undefined/null/booleans/digit strings; callbacks scripted (return value, mutation of the receiver, throw); " +
 		"every generated case counts as non-trivial when its text is distinct (the generator has no filler cases)"
 	g := &gen{env: env, r: env.Rng}
 	r := g.r
 	g.pinned()
+	g.families()
 	for env.Count() < env.N {
-		switch k := r.Intn(48); {
+		switch k := r.Intn(53); {
+		case k == 48 || k == 49: // writing methods / assignments where a missing index is an inherited accessor (setter), receiver hardened or not
+			n := 1 + r.Intn(5)
+			rc := Recv{arr: r.Intn(4) > 0, elems: g.slots(n, Pick(r, []int{1, 2, 2}))}
+			if !rc.arr {
+				rc.length = vp(vNum(float64(n)))
+			}
+			rc.onAP = rc.arr && r.Intn(2) == 0
+			rc.proto = map[int64]Prop{}
+			for i := 1 + r.Intn(3); i > 0; i-- {
+				k := int64(r.Intn(n + 3))
+				if r.Intn(4) == 0 {
+					rc.proto[k] = Prop{v: vStr("P"), w: r.Intn(2) == 0, e: true, c: true}
+				} else {
+					rc.proto[k] = Prop{acc: &Getter{id: 90 + int(k), p: r.Intn(9)}}
+				}
+			}
+			var ops []Op
+			if r.Intn(4) > 0 {
+				ops = append(ops, Op{kind: Pick(r, []byte{'e', 'e', 'l', 'f'})})
+			}
+			for i := 1 + r.Intn(2); i > 0; i-- {
+				if r.Intn(4) == 0 {
+					ops = append(ops, Op{kind: 's', k: kIdx(int64(r.Intn(n + 3))), v: g.val()})
+					continue
+				}
+				m := Pick(r, []int{1, 2, 2, 3, 3, 4, 6, 6, 7, 7})
+				op := g.call(rc, m)
+				ops = append(ops, op)
+			}
+			g.runHist(rc, ops, "inherited-setter")
+		case k == 50: // primitive receivers (ToObject(this)): the reading methods
+			pv := Pick(r, []V{vStr("ab"), vStr("abc"), vStr("a"), vStr(""), vNum(7), vBool(false), vStr("1,2")})
+			rc := Recv{prim: vp(pv), elems: make([]*V, len(pv.s))}
+			var ops []Op
+			for i := 1 + r.Intn(2); i > 0; i-- {
+				m := Pick(r, []int{0, 5, 8, 9, 10, 11, 11, 12, 13, 14, 15, 16, 19})
+				op := g.call(rc, m)
+				if len(op.cbs) > 0 {
+					op.cbs = g.cbScript(int64(len(pv.s)), 4)
+				}
+				ops = append(ops, op)
+			}
+			g.runHist(rc, ops, "primitive-receiver")
+		case k == 51 || k == 52:
+			g.locCase()
 		case k >= 46:
 			g.sortCase()
 		case k >= 39 && k < 42: // getters that change ANOTHER object taking part in the same call
